@@ -323,20 +323,32 @@ Definition PG_XML : N := 23.
 Definition pg_format_class (k : N) : bool :=
   existsb (N.eqb k) [2; 3; 4; 5; 6; 7; 8; 9; 10; 13; 15; 17; 19; 24; 25; 26; 27; 28]%N.
 
-(** [typeChanged(from, to, "")]: None = error *)
-Definition pg_type_changed (from to : column) : option bool :=
+(** [trimSchema(t, ns)] for a schema name that %q prints as "ns" (no escapes) *)
+Definition trim_schema (ns t : str) : str :=
+  let pre := match t with
+             | c :: _ => if N.eqb c ch_dquote then ch_dquote :: ns ++ [ch_dquote; 46%N] else ns ++ [46%N]
+             | [] => ns ++ [46%N]
+             end in
+  match has_prefix pre t with Some r => r | None => t end.
+
+(** [typeChanged(from, to, ns)]: None = error; [ns] = conn.schema, "" for DefaultDiff *)
+Definition pg_type_changed_ns (ns : str) (from to : column) : option bool :=
   if N.eqb (c_class from) 0 || N.eqb (c_class to) 0 then None
   else if negb (N.eqb (c_class from) (c_class to)) then Some true
   else
     let k := c_class from in
     let differ := negb (str_eqb (fld 0 (c_T from)) (fld 0 (c_T to))) in
     if pg_format_class k then Some differ
-    else if N.eqb k PG_UDT then Some false    (* toT.T != fromT.T && ns != "" && ... with ns = "" *)
+    else if N.eqb k PG_UDT then
+      (* toT.T != fromT.T && ns != "" && trimSchema(toT.T, ns) != trimSchema(fromT.T, ns) *)
+      Some (differ && negb (str_eqb ns [])
+            && negb (str_eqb (trim_schema ns (fld 0 (c_T to))) (trim_schema ns (fld 0 (c_T from)))))
     else if N.eqb k PG_COMPOSITE || N.eqb k PG_DOMAIN || N.eqb k PG_ENUM
             || N.eqb k PG_CURRENCY || N.eqb k PG_XML then Some differ
     else if N.eqb k PG_ARRAY then
       Some (negb (str_eqb (fld 0 (c_T from)) []) && negb (str_eqb (fld 0 (c_T to)) []) && differ)
     else None.
+Definition pg_type_changed := pg_type_changed_ns [].
 
 Definition is_letter (c : N) : bool := (N.leb 65 c && N.leb c 90) || (N.leb 97 c && N.leb c 122).
 
@@ -412,8 +424,8 @@ Definition pg_identity_changed (from to : column) : bool :=
   end.
 
 (** [diff.ColumnChange] *)
-Definition pg_column_change (_ : table) (from to : column) : option N :=
-  match pg_type_changed from to with
+Definition pg_column_change_ns (ns : str) (_ : table) (from to : column) : option N :=
+  match pg_type_changed_ns ns from to with
   | None => None
   | Some tc =>
       match pg_generated_changed from to with
@@ -428,6 +440,7 @@ Definition pg_column_change (_ : table) (from to : column) : option N :=
                   (bit gc ChangeGenerated))
       end
   end.
+Definition pg_column_change := pg_column_change_ns [].
 
 (** [diff.IndexAttrChanged] (no unique/exclude constraints, no storage parameters) *)
 Definition pg_index_attr_changed (from to : index) : bool :=
@@ -455,8 +468,11 @@ Definition pg_is_generated_index_name (t : table) (idx : index) : bool :=
 Definition pg_table_attr_diff (from to : table) : option (list change) :=
   Some (checks_diff (check_compare (Some (fun _ _ => true))) (t_checks from) (t_checks to)).
 
-Definition pg_driver : DiffDriver :=
-  mkDriver pg_column_change
+(** [ns] = conn.schema: "" for postgres.DefaultDiff; the search_path of the URL otherwise (with
+    a connection the database decides the equality of default expressions -- the harness's
+    fake connection answers "not equal", as the connection-less differ assumes) *)
+Definition pg_driver_ns (ns : str) : DiffDriver :=
+  mkDriver (pg_column_change_ns ns)
            pg_index_attr_changed
            (fun _ _ _ => false)                  (* IndexPartAttrChanged: NULLS FIRST/LAST follow DESC, no operator classes *)
            pg_is_generated_index_name
@@ -466,6 +482,10 @@ Definition pg_driver : DiffDriver :=
            pg_table_attr_diff
            (fun from to => Some (from, to))      (* no Normalizer *)
            false.
+Definition pg_driver : DiffDriver := pg_driver_ns [].
 
 Definition pg_schema_diff (skip : tag -> bool) := SchemaDiff pg_driver skip.
 Definition pg_table_diff (skip : tag -> bool) := TableDiff pg_driver skip.
+Definition PUBLIC : str := [112;117;98;108;105;99]%N.
+Definition pg_public_schema_diff (skip : tag -> bool) := SchemaDiff (pg_driver_ns PUBLIC) skip.
+Definition pg_public_table_diff (skip : tag -> bool) := TableDiff (pg_driver_ns PUBLIC) skip.
